@@ -10,7 +10,7 @@ LEVEL_TEXT = ("Lean theorems over the same system as C02, for ANY event order: t
 LEVEL_NOTE = ("modelled, not verified: scheduler/api.py initialize/plan, scheduler/assign.py build_assignment + the pops of _assignment_heuristic, controller/act.py act/flush_queues, controller/notify.py notify/consider_*, impl.run loop skeleton (Model/Ctrl.lean, one Lean function per Python function). Abstracted as an oracle argument validated for admissibility by the model and supplied from what the real run chose: which (idle worker, computable task) pairs the distance/overhead heuristics and host->component migration pick per round, and which `available` host is the transmit source; theorems quantify over all admissible choices. Executors are abstract (Env; SimBridge mirrors it): a dispatched task runs once its inputs are on its host and publishes outputs in index order; transmit/fetch read the source store; purge is immediate. Hypothesis WF: tasks topologically numbered, inputs duplicate-free, >=1 output per task, requested outputs exist, worker ids distinct (the generator guarantees it). The distance/overhead dictionaries of the heuristics (KeyError sites inside _assignment_heuristic/migrate) are outside the model: their crash-freedom is covered only by the exception-capturing oracle on every run.")
 TECHNIQUE = "Lean 4 inductive system invariant (crash-freedom, shutdown discipline) over a small-step transition system + differential correspondence with the real controller under adversarial schedules (watchdog oracles for liveness)"
 LEAN_PROPS = ["EkwVerif.Props.C03"]
-LEAN_DRIVERS = ["Ctrl"]
+LEAN_DRIVERS = ["Ctrl", "CtrlX"]
 RULE = ctrl_check.RULE
 ASSUMPTIONS = ctrl_check.ASSUMPTIONS
 
